@@ -1,5 +1,6 @@
 import PyresampleModel.Props.TieC02
 import PyresampleModel.Props.CodeC19
+import PyresampleModel.Proofs.Num
 
 /-
   C02 — what the nearest-neighbour pipeline takes from the translated code: the legal-coordinate tests (`TieC02`) and the
@@ -22,5 +23,30 @@ theorem code_segments_are_row_blocks (segments rows : Nat) (cols : Int) (hseg : 
   simp only [List.mem_map] at hp
   obtain ⟨q, _, rfl⟩ := hp
   rfl
+
+/-- the default number of segments of `get_neighbour_info`: an explicit value is used as it is; otherwise one segment up to
+3 million target locations and `⌊size / 3 000 000⌋ ≥ 1` above -/
+theorem code_default_segments (seg : Option Int) (size : Nat) :
+    Gen.kd_default_segments seg size =
+      (match seg with
+       | some s => s
+       | none => if size > 3000000 then ((size / 3000000 : Nat) : Int) else 1) ∧
+    (seg = none → 1 ≤ Gen.kd_default_segments seg size) := by
+  have key : (size : Int) > 3000000 → pyTrunc ((((size : Nat) : Int) : Rat) / ((3000000 : Int) : Rat)) = ((size / 3000000 : Nat) : Int) := by
+    intro _
+    have h : ((((size : Nat) : Int) : Rat) / ((3000000 : Int) : Rat)) = ((size : Rat) / ((3000000 : Nat) : Rat)) := by push_cast; rfl
+    rw [h, pyTrunc_of_nonneg (by positivity), pyFloor_eq, Rat.floor_natCast_div_natCast]
+    norm_cast
+  cases seg with
+  | some s => simp [Gen.kd_default_segments]
+  | none =>
+    by_cases hs : (size : Int) > 3000000
+    · have hs' : size > 3000000 := by exact_mod_cast hs
+      simp only [Gen.kd_default_segments, hs, decide_true, if_true, key hs, hs']
+      refine ⟨trivial, fun _ => ?_⟩
+      have : 1 ≤ size / 3000000 := Nat.div_pos (by omega) (by omega)
+      exact_mod_cast this
+    · have hs' : ¬ size > 3000000 := by exact_mod_cast hs
+      simp [Gen.kd_default_segments, hs, hs']
 
 end PyresampleModel.Tie
